@@ -102,13 +102,7 @@ Theorem C11_comment_after_semi_refuted :
   /\ map (@length _) (split_sigs w_comment_nl_a) = [4; 2]
   /\ map (@length _) (split_sigs w_comment_nl_b) = [3; 3].
 Proof. exact C11Wit.C11_comment_after_semi_refuted. Qed.
-Theorem C11_go_n_lex_refuted :
-  lex_ok w_go_n_a = true /\ lex_ok w_go_n_b = true
-  /\ skel0b (lexed w_go_n_a) (lexed w_go_n_b) = false
-  /\ length (sig (lexed w_go_n_a)) = 5 /\ length (sig (lexed w_go_n_b)) = 6.
-Proof. exact C11Wit.C11_go_n_lex_refuted. Qed.
 Print Assumptions C11_comment_after_semi_refuted.
-Print Assumptions C11_go_n_lex_refuted.
 
 (* ---- the witnesses of the repaired defects: now the same shapes / the same statements ---------------- *)
 Theorem C11_order_by_ws_same :
@@ -134,3 +128,9 @@ Theorem C11_split_end_if_ws_same :
   respelling w_split_end_if_a w_split_end_if_b
   /\ length (split_sigs w_split_end_if_a) = 2 /\ split_sigs w_split_end_if_a = split_sigs w_split_end_if_b.
 Proof. exact C11Wit.C11_split_end_if_ws_same. Qed.
+Theorem C11_go_n_lex_same :
+  lex_ok w_go_n_a = true /\ lex_ok w_go_n_b = true
+  /\ skel0b (lexed w_go_n_a) (lexed w_go_n_b) = true
+  /\ length (sig (lexed w_go_n_a)) = 5 /\ length (sig (lexed w_go_n_b)) = 5
+  /\ split_sigs w_go_n_a = split_sigs w_go_n_b.
+Proof. exact C11Wit.C11_go_n_lex_same. Qed.
